@@ -7,7 +7,7 @@ from vlib.core import write_cfg, validate_trace, count_lines, NCPU
 LEVEL = "model_checking"
 META = {
     "technique": "TLA+ spec Arpa.tla (encoders, Canon, DecodeAddr as pure operators over label/character sequences) model-checked by TLC over bounded address and name sets; every enumerated address and name replayed on IPToReversedAddr / IPFromReversedAddr with the spec-predicted result; seeded random addresses and edited names recorded from the Go code and trace-validated by TLC",
-    "level_text": "TLC checks on every enumerated address (IPv4 over a byte alphabet^4, the same as IPv4-mapped and nearly-mapped 16-byte forms, every IPv6 byte position and adjacent pair over two background fills) that DecodeAddr(Encode(a)) = a in lower/upper/mixed case with zero or one trailing dot and is rejected with two, and on every enumerated name (all label sequences up to 4-5 labels over a table of octet / leading-zero / overflow / nibble / junk labels and long nibble runs of 28..34 labels, before 16 suffix shapes per family incl. xin-addr.arpa, wrong TLD, Unicode look-alikes) that whatever decodes re-encodes to its folded, dot-stripped self. TLC emits each address and name with the predicted result; the Go harness replays all of them on the real functions (value, rejection, *AddrError type, no panic). 10^5-10^6 seeded random addresses and random edits of their names are run against the round-trip identity in Go and a sample of the log is re-judged by TLC with the same operators.",
+    "level_text": "TLC checks on every enumerated address (IPv4 over a byte alphabet^4, the same as IPv4-mapped and nearly-mapped 16-byte forms, every IPv6 byte position and adjacent pair over two background fills) that DecodeAddr(Encode(a)) = a in lower/upper/mixed case with zero or one trailing dot and is rejected with two, and on every enumerated name (all label sequences up to 4-5 labels over a table of octet / leading-zero / overflow / nibble / junk labels and long nibble runs of 28..34 labels, before 16 suffix shapes per family incl. xin-addr.arpa, wrong TLD, Unicode look-alikes) that whatever decodes re-encodes to its folded, dot-stripped self. TLC emits each address and name with the predicted result; the Go harness replays all of them on the real functions (value, rejection, *AddrError type, no panic). The name family also replaces each of the last labels (suffix labels and the labels next to them) by its ACE alias xn--<label>- and contains a real IDN label with its ACE form, and control-byte look-alikes of '-', '.', '6' in the suffix. Single-byte substitution: for six canonical names (full, partial and root name of each family) every position x every byte value 0..255 is run on the real code, judged in Go by the statement's relations and, every one of them, by TLC's DecodeAddr on the logged observation. 10^5-10^6 seeded random addresses and random edits of their names (incl. ACE wrapping of a label) are run against the round-trip identity in Go and a sample of the log is re-judged by TLC with the same operators.",
     "level_note": "Bounded: the exhaustive part covers label sequences up to the stated length over the label table, not all strings; longer/other inputs are sampled (random edits). A nibble name of an IPv4-mapped address is accepted as the IPv6 (Is4In6) address it spells, which the statement leaves open. Domain-name validity is taken from netutil.ValidateDomainName.",
 }
 
@@ -144,6 +144,8 @@ def run(ctx):
     ctx.evaluations += s3["calls"]
     ctx.distinct += s3["distinct_nontrivial"]
     ctx.extra["random_cases"] = s3["cases"]
+    ctx.extra["single_byte_substitution_inputs"] = s3["subst_inputs"]
+    ctx.extra["single_byte_substitution_accepts"] = s3["subst_accepts"]
     ctx.extra["trace_events_validated"] = n
     ctx.extra["random_edited_names_accepted"] = s3["edited_accepts"]
 
